@@ -265,6 +265,12 @@ def templates():
     # an int-labelled secondary axis meets float labels under align=True
     add('stack-mixed-kinds-align', 'stack_case', cost=3, specs=[[[X], [2]], [[X], [2]]], align=True, kinds={'0:x': 'i', '1:x': 'f'})
     add('concat-mixed-kinds-align', 'concat_case', cost=4, specs=[[[Y, X], [1, 2]], [[Y, X], [2, 2]]], axis=0, align=True, kinds={'0:x': 'i', '1:x': 'f'})
+    # secondary axes of different lengths (a single label next to a longer axis is not a match)
+    for align in (False, True):
+        add('stack-uneq-3-1-%s' % align, 'stack_case', cost=2, specs=[[[X], [3]], [[X], [1]]], align=align)
+        add('stack-uneq-1-2-%s' % align, 'stack_case', cost=2, specs=[[[X], [1]], [[X], [2]]], align=align)
+        add('stack-uneq-2d-%s' % align, 'stack_case', cost=3, specs=[[[X, Y], [2, 2]], [[X, Y], [1, 2]]], align=align, share=[Y])
+        add('concat-uneq-%s' % align, 'concat_case', cost=3, specs=[[[Y, X], [1, 3]], [[Y, X], [2, 1]]], axis=0, align=align)
     add('stack-0d', 'stack_case', cost=0.2, specs=[[[], []], [[], []]])
     add('stack-4in', 'stack_case', 'thorough', cost=20, specs=[[[X], [2]]] * 4, keys='int')
     # concatenate
